@@ -68,7 +68,12 @@ func (x *exec) Main() {
 		x.note = "ctor-error"
 		return
 	}
-	if sc.bg != "build" && in.status != nil {
+	bgBuild := strings.HasPrefix(sc.bg, "build")
+	rb := sc.bg // the Rebuild part of "build+rebuild…"
+	if i := strings.IndexByte(rb, '+'); i >= 0 {
+		rb = rb[i+1:]
+	}
+	if !bgBuild && in.status != nil {
 		in.status.Wait(context.Background())
 		in.f.cancelFn = nil
 	}
@@ -86,16 +91,16 @@ func (x *exec) Main() {
 			}
 		})
 	}
-	if strings.HasPrefix(sc.bg, "rebuild") {
+	if strings.HasPrefix(rb, "rebuild") {
 		n := 1
 		spec := ""
-		if sc.bg == "rebuild2" {
+		if rb == "rebuild2" {
 			n = 2
-		} else if i := strings.IndexByte(sc.bg, '!'); i >= 0 {
-			spec = sc.bg[i+1:]
+		} else if i := strings.IndexByte(rb, '!'); i >= 0 {
+			spec = rb[i+1:]
 		}
 		if spec != "" {
-			in.f.enums = []enumFault{parseEnumFault(spec)}
+			in.f.enums = append(in.f.enums, parseEnumFault(spec))
 		}
 		nDrivers += n
 		for i := 0; i < n; i++ {
@@ -131,7 +136,7 @@ func (x *exec) finalCalls() {
 	for _, op := range x.sc.final {
 		x.do(200, op)
 	}
-	if x.sc.bg == "build" && x.in.status != nil {
+	if strings.HasPrefix(x.sc.bg, "build") && x.in.status != nil {
 		// the same reads again once the initial build is over
 		x.in.status.Wait(context.Background())
 		for _, op := range x.sc.final {
@@ -216,46 +221,59 @@ func (x *exec) Check(res *vsched.Result) *eng.Violation {
 			continue
 		}
 		k := key(r.e.c)
-		if answerClass(r.call.res) == "missing" {
-			stored := false
-			if _, ok := init[k]; ok {
-				stored = true
+		var puts, dels []*hcall
+		if _, ok := init[k]; ok {
+			puts = append(puts, &hcall{op: "preload", start: 0, ret: 0})
+		}
+		for _, o := range ops {
+			if key(o.e.c) != k {
+				continue
 			}
-			putDuringRebuild := false
-			for _, p := range ops {
-				if p.kind == "Put" && key(p.e.c) == k && p.call.ret < r.call.start {
-					stored = true
-					if x.overlapsRebuild(p.call) {
-						putDuringRebuild = true
+			if o.kind == "Put" {
+				puts = append(puts, o.call)
+			} else if o.kind == "Delete" {
+				dels = append(dels, o.call)
+			}
+		}
+		switch answerClass(r.call.res) {
+		case "missing":
+			// some put returned before the read started and every delete that began before the read returned was over before that put began
+			for _, p := range puts {
+				if p.ret >= r.call.start {
+					continue
+				}
+				shadowed := false
+				for _, d := range dels {
+					if d.start < r.call.ret && !(d.ret < p.start) {
+						shadowed = true
 					}
 				}
-			}
-			deleted := false
-			for _, d := range ops {
-				if d.kind == "Delete" && key(d.e.c) == k && d.call.start < r.call.ret {
-					deleted = true
+				if !shadowed {
+					return eng.V("false-negative", r.kind, fmt.Sprintf("%s answered %q although the block was stored (%s) before the call started and no delete of it was issued after that\n%s", r.call.op, r.call.res, p.op, x.history()),
+						feat("read_overlaps_rebuild", fmt.Sprint(x.overlapsRebuild(r.call)), "put_overlaps_rebuild", fmt.Sprint(p.op != "preload" && x.overlapsRebuild(p)))...)
 				}
 			}
-			if stored && !deleted {
-				return eng.V("false-negative", r.kind, fmt.Sprintf("%s answered %q although the block was stored before the call started and no delete of it was ever issued\n%s", r.call.op, r.call.res, x.history()),
-					feat("read_overlaps_rebuild", fmt.Sprint(x.overlapsRebuild(r.call)), "put_overlaps_rebuild", fmt.Sprint(putDuringRebuild))...)
-			}
-		}
-		if answerClass(r.call.res) == "present" {
-			possible := false
-			if _, ok := init[k]; ok {
-				possible = true
-			}
-			for _, p := range ops {
-				if p.kind == "Put" && key(p.e.c) == k && p.call.start < r.call.ret {
-					possible = true
-				}
-			}
-			if !possible {
+		case "present":
+			if len(puts) == 0 {
 				return eng.V("phantom-block", r.kind, fmt.Sprintf("%s answered %q although the block was never stored\n%s", r.call.op, r.call.res, x.history()), feat()...)
 			}
-		}
-		if answerClass(r.call.res) == "other" {
+			// some delete returned before the read started and every put was over before that delete began
+			for _, d := range dels {
+				if d.ret >= r.call.start {
+					continue
+				}
+				revived := false
+				for _, p := range puts {
+					if p.start < r.call.ret && !(p.ret < d.start) {
+						revived = true
+					}
+				}
+				if !revived {
+					return eng.V("deleted-block-present", r.kind, fmt.Sprintf("%s answered %q although %s had returned before the call started and no put of the block was issued after that\n%s", r.call.op, r.call.res, d.op, x.history()),
+						feat("delete_overlaps_rebuild", fmt.Sprint(x.overlapsRebuild(d)))...)
+				}
+			}
+		default:
 			return eng.V("read-error", r.kind, fmt.Sprintf("%s answered %q without any base-store failure\n%s", r.call.op, r.call.res, x.history()), feat()...)
 		}
 	}
@@ -357,28 +375,40 @@ func linearizable(ops []lop, init map[string][]byte) bool {
 func concScripts(thorough bool) []*cscript {
 	s := []*cscript{
 		// two-queue cache: same key from two threads (alias CIDs share the cache key and the per-key lock)
-		{name: "tq-put-del", quick: true, cfg: "layer=tq,tq=2", bg: "none", threads: [][]string{{"Put B", "Has B"}, {"Delete B", "Has B"}}, final: []string{"Has B", "Get B"}},
-		{name: "tq-alias", quick: true, cfg: "layer=tq,tq=2,pre=A0", bg: "none", threads: [][]string{{"Delete A1", "Put A0"}, {"Has A1", "GetSize A0"}}, final: []string{"Has A0", "GetSize A1"}},
-		{name: "tq-putmany-order", quick: true, cfg: "layer=tq,tq=4", bg: "none", threads: [][]string{{"PutMany A0 B"}, {"PutMany B A1"}, {"Delete B"}}, final: []string{"Has B", "Has A0"}, delta: -1},
-		{name: "tq-evict", quick: true, cfg: "layer=tq,tq=2,pre=B", bg: "none", threads: [][]string{{"Has A0", "Has C", "Has B"}, {"Delete B", "Put B"}}, final: []string{"Has B", "GetSize B"}},
-		{name: "tq-view-noviewer", cfg: "layer=tq,tq=2,view=0,pre=B", bg: "none", threads: [][]string{{"View B", "Delete B"}, {"View B", "Put B"}}, final: []string{"View B"}},
+		{name: "tq-put-del", quick: true, cfg: "layer=tq,tq=2", bg: "none", threads: [][]string{{"Put B", "Has B"}, {"Delete B", "Has B"}}, final: []string{"Has B", "Get B"}, delta: 20},
+		{name: "tq-alias", quick: true, cfg: "layer=tq,tq=2,pre=A0", bg: "none", threads: [][]string{{"Delete A1", "Put A0"}, {"Has A1", "GetSize A0"}}, final: []string{"Has A0", "GetSize A1"}, delta: 2},
+		{name: "tq-putmany-order", quick: true, cfg: "layer=tq,tq=4", bg: "none", threads: [][]string{{"PutMany A0 B"}, {"PutMany B A1"}, {"Delete B"}}, final: []string{"Has B", "Has A0"}},
+		{name: "tq-evict", quick: true, cfg: "layer=tq,tq=2,pre=B", bg: "none", threads: [][]string{{"Has A0", "Has C", "Has B"}, {"Delete B", "Put B"}}, final: []string{"Has B", "GetSize B"}, delta: 1},
+		{name: "tq-view-noviewer", cfg: "layer=tq,tq=2,view=0,pre=B", bg: "none", threads: [][]string{{"View B", "Delete B"}, {"View B", "Put B"}}, final: []string{"View B"}, delta: 3},
 		// Bloom cache: calls racing the initial build
 		{name: "bloom-build", quick: true, cfg: "layer=bloom,pre=B", bg: "build", threads: [][]string{{"Has B", "Put C"}, {"Get C", "Has C"}}, final: []string{"Has B", "Has C"}},
 		{name: "bloom-build-err", quick: true, cfg: "layer=bloom,pre=A0+B,build=err@1", bg: "build", threads: [][]string{{"Has B", "Put C"}, {"Has A1"}}, final: []string{"Has B", "Has C", "Has A0"}},
 		{name: "bloom-build-cancel", cfg: "layer=bloom,pre=A0+B,build=cancel@1", bg: "build", threads: [][]string{{"Has B"}, {"Has A1"}}, final: []string{"Has B", "Has A0"}},
 		// Bloom cache: calls racing Rebuild
-		{name: "bloom-rebuild-read", quick: true, cfg: "layer=bloom,pre=B", bg: "rebuild", threads: [][]string{{"Has B", "Get B"}}, final: []string{"Has B"}},
-		{name: "bloom-rebuild-put", quick: true, cfg: "layer=bloom,pre=B", bg: "rebuild", threads: [][]string{{"Put A0", "Has A1"}}, final: []string{"Has A0", "Has B"}},
-		{name: "bloom-rebuild-err", quick: true, cfg: "layer=bloom,pre=A0+B", bg: "rebuild!err@1", threads: [][]string{{"Put C", "Has C"}}, final: []string{"Has A0", "Has B", "Has C"}},
-		{name: "bloom-rebuild-cancel", cfg: "layer=bloom,pre=A0+B", bg: "rebuild!cancel@1", threads: [][]string{{"Put C"}}, final: []string{"Has A0", "Has B", "Has C"}},
-		{name: "bloom-rebuild2", cfg: "layer=bloom,pre=B", bg: "rebuild2", threads: [][]string{{"Put A0"}}, final: []string{"Has A0", "Has B"}, delta: -1},
+		{name: "bloom-rebuild-read", quick: true, cfg: "layer=bloom,pre=B", bg: "rebuild", threads: [][]string{{"Has B", "Get B"}}, final: []string{"Has B"}, delta: 2},
+		{name: "bloom-rebuild-put", quick: true, cfg: "layer=bloom,pre=B", bg: "rebuild", threads: [][]string{{"Put A0", "Has A1"}}, final: []string{"Has A0", "Has B"}, delta: 2},
+		{name: "bloom-rebuild-err", quick: true, cfg: "layer=bloom,pre=A0+B", bg: "rebuild!err@1", threads: [][]string{{"Put C", "Has C"}}, final: []string{"Has A0", "Has B", "Has C"}, delta: 2},
+		{name: "bloom-rebuild-cancel", cfg: "layer=bloom,pre=A0+B", bg: "rebuild!cancel@1", threads: [][]string{{"Put C"}}, final: []string{"Has A0", "Has B", "Has C"}, delta: 2},
+		{name: "bloom-rebuild2", cfg: "layer=bloom,pre=B", bg: "rebuild2", threads: [][]string{{"Put A0"}}, final: []string{"Has A0", "Has B"}},
 		// both layers through the public constructor
-		{name: "both-rebuild", quick: true, cfg: "layer=both,tq=2,pre=B", bg: "rebuild", threads: [][]string{{"Delete B", "Put B"}, {"Has B"}}, final: []string{"Has B", "GetSize B"}, delta: -1},
+		{name: "both-rebuild", quick: true, cfg: "layer=both,tq=2,pre=B", bg: "rebuild", threads: [][]string{{"Delete B", "Put B"}, {"Has B"}}, final: []string{"Has B", "GetSize B"}},
 		{name: "both-build", cfg: "layer=both,tq=2,pre=B", bg: "build", threads: [][]string{{"Put A0", "Has A1"}, {"Delete A1"}}, final: []string{"Has A0", "Has B"}},
 		// base store whose enumeration is a lazy walk (not a snapshot)
 		{name: "bloom-rebuild-live", cfg: "layer=bloom,pre=B,live=1", bg: "rebuild", threads: [][]string{{"Put A0", "Put C"}}, final: []string{"Has A0", "Has B", "Has C"}},
 		// base store that cannot report a truncated enumeration
-		{name: "bloom-rebuild-noerrer", quick: true, cfg: "layer=bloom,errer=0,pre=A0+B", bg: "rebuild!cancel@1", threads: [][]string{{"Has B"}}, final: []string{"Has A0", "Has B"}},
+		{name: "bloom-rebuild-noerrer", quick: true, cfg: "layer=bloom,errer=0,pre=A0+B", bg: "rebuild!cancel@1", threads: [][]string{{"Has B"}}, final: []string{"Has A0", "Has B"}, delta: 2},
+		// thorough-only extras
+		{name: "tq-3thr-samekey", cfg: "layer=tq,tq=2", bg: "none", threads: [][]string{{"Put B"}, {"Delete B"}, {"Has B", "GetSize B"}}, final: []string{"Has B", "Get B"}, delta: 1},
+		{name: "tq-reads-vs-writes", cfg: "layer=tq,tq=3,pre=B", bg: "none", threads: [][]string{{"Get B", "GetSize B", "View B"}, {"Delete B", "Put B"}}, final: []string{"GetSize B", "View B"}, delta: 2},
+		{name: "tq-putmany-vs-delete", cfg: "layer=tq,tq=4,pre=C", bg: "none", threads: [][]string{{"PutMany C B", "Has C"}, {"Delete C", "Delete B"}}, final: []string{"Has B", "Has C"}, delta: 2},
+		{name: "bloom-build-delete", cfg: "layer=bloom,pre=A0+B", bg: "build", threads: [][]string{{"Delete B", "Has B"}, {"Put B"}}, final: []string{"Has B", "Has A1"}},
+		{name: "bloom-rebuild-delete", cfg: "layer=bloom,pre=A0+B", bg: "rebuild", threads: [][]string{{"Delete B", "Put C"}}, final: []string{"Has B", "Has C", "Has A0"}, delta: 2},
+		{name: "bloom-rebuild-3thr", cfg: "layer=bloom,pre=B", bg: "rebuild", threads: [][]string{{"Put C"}, {"Has C", "Has B"}}, final: []string{"Has C", "Has B"}},
+		{name: "bloom-build+rebuild", cfg: "layer=bloom,pre=B", bg: "build+rebuild", threads: [][]string{{"Put A0", "Has A1"}}, final: []string{"Has A0", "Has B"}},
+		{name: "bloom-builderr+rebuild", cfg: "layer=bloom,pre=A0+B,build=err@1", bg: "build+rebuild", threads: [][]string{{"Put C", "Has B"}}, final: []string{"Has A0", "Has B", "Has C"}},
+		{name: "bloom3-rebuild", cfg: "layer=bloom,bh=3,view=0,pre=B", bg: "rebuild", threads: [][]string{{"Put A0", "View A1"}}, final: []string{"View A0", "View B"}, delta: 2},
+		{name: "both-rebuild-putmany", cfg: "layer=both,tq=2,pre=B", bg: "rebuild", threads: [][]string{{"PutMany A0 C", "Has C"}}, final: []string{"Has A1", "Has B", "Has C"}, delta: 1},
+		{name: "both-rebuild-err", cfg: "layer=both,tq=64,pre=A0+B", bg: "rebuild!err@1", threads: [][]string{{"Delete A0", "Put A1"}, {"GetSize A0"}}, final: []string{"Has A0", "GetSize A1"}},
 		// constructor: HasTwoQueueCacheSize=1 makes lru.New2Q fail (ghost list of size 0); with a Bloom filter
 		// configured the error is overwritten and a store wrapping a nil *tqcache is returned
 		{name: "ctor-tq1-bloom", quick: true, cfg: "layer=both,tq=1,pre=B", bg: "none", threads: [][]string{{"Has B"}}},
